@@ -42,10 +42,11 @@ class ObjT(T):
     """Instance of a package class with symbolic fields taken from the registered field schema;
     `fields` overrides individual field types or gives concrete values via Const."""
 
-    def __init__(self, cls, shared=False, **fields):
+    def __init__(self, cls, shared=False, unvalidated=False, **fields):
         self.cls = cls
         self.fields = fields
         self.shared = shared
+        self.unvalidated = unvalidated     # True: the class's registered validity predicate is NOT assumed (constructors, validators)
 
 
 class Const(T):
